@@ -203,11 +203,11 @@ DESCR = {
             "technique": "property-based testing over operation scripts; round-trip / differential oracle"},
     "C13": {"level": "generated-input search over point multisets and boxes; the complete iterated sequence of range(min,max) is compared element-wise with the "
                      "stored points inside the box ordered by an independent Morton encoder (multiplicity, order, termination)",
-            "design_ref": "DESIGN.md section 6 C13", "note": "trusted: bit-loop Morton encoder of the oracle (its bit convention is self-tested against the library on two unit points per case); n <= 6000 points per case",
+            "design_ref": "DESIGN.md section 6 C13", "note": "trusted: bit-loop Morton encoder of the oracle (its bit convention is self-tested against the library on two unit points per case); n <= 6000 points per case; half of the cases answer from a copy whose source was destroyed or reassigned; the first two boxes are also enumerated by two live iterators advanced in turn; consecutive boxes may share a corner",
             "technique": "property-based testing vs brute-force box filter + independent Morton sort"},
     "C14": {"level": "generated-input search: contains(p) for stored points, neighbours and absent points constructed below / between / above the stored codes, "
                      "compared with multiset membership",
-            "design_ref": "DESIGN.md section 6 C14", "note": "trusted: bit-loop Morton encoder / decoder of the oracle; n <= 6000 points per case",
+            "design_ref": "DESIGN.md section 6 C14", "note": "trusted: bit-loop Morton encoder / decoder of the oracle; n <= 6000 points per case; queries include every single-bit twin of sampled stored points; half of the cases answer from a copy whose source was destroyed or reassigned",
             "technique": "property-based testing vs set-membership oracle"},
     "C05": {"level": "stateful generated-input search: histories of bulk-load + insert_or_assign/erase (single and long runs that force cascading merges) are applied to "
                      "the container and to std::map; find/count/lower_bound are compared after every update",
